@@ -150,7 +150,12 @@ impl Sm2PublicKey {
         }
         let s_g = g_mul(&s);
         let t_p = pk.scalar_mul(&t);
-        let p = s_g.point_add(&t_p).to_affine_point();
+        let sum = s_g.point_add(&t_p);
+        // B6: the point at infinity has no x coordinate, the signature is invalid
+        if sum.is_zero() {
+            return Err(Sm2Error::InvalidDigest);
+        }
+        let p = sum.to_affine_point();
         // fn_add expects operands below n: e is any 256-bit value and x1 is only below p
         let mut x1 = u256_from_be_bytes(&fp_from_mont(&p.x).to_byte_be());
         if u256_cmp(&x1, n) >= 0 {
